@@ -489,7 +489,10 @@ class ObjGen:
     def key(self):
         r = self.r
         k = r.random()
-        if k < 0.7: return self.g.ident()
+        if k < 0.66: return self.g.ident()
+        # a name that is a literal of some dialect, or could be taken for one by a laxer reader (ISO 8601 basic
+        # forms such as T12): names are written bare, so the reader must agree that it is a name
+        if k < 0.70: return r.choice(LITERAL_STRINGS + ["T12", "T1200", "T120000", "T12Z", "W01", "Z"])
         if k < 0.78: return self.g.ident(29) [:29] + r.choice(["", "a", "ab"])
         if k < 0.86: return "^" + self.g.ident(6)
         if k < 0.92: return self.g.ident(5) + ":" + self.g.ident(5)
